@@ -31,9 +31,10 @@ OK_VARIANTS = {"Ok", "Some", "Continue"}
 
 
 class Prov:
-    def __init__(self, fn, flow=None):
+    def __init__(self, fn, flow=None, cut=False):
         self.fn = fn
         self.flow = flow  # optional BoolFlow: restrict reaching definitions to feasible edges of a context
+        self.cut = cut    # named locals assigned more than once become ('var', name, local) leaves
         self.defs = {}
         self._site_term = {}
         self._in_progress = set()
@@ -142,8 +143,12 @@ class Prov:
         if depth > 60:
             return ("unknown", "deep")
         fn = self.fn
-        whole, partial, entry = self.reaching(local, bi, si)
         proj = proj or []
+        if self.cut and local > fn.argc and fn.locals[local].get("n"):
+            nwhole = [d for d in self.defs.get(local, []) if d[2] is None]
+            if len(nwhole) > 1 or (self.cut == "all" and nwhole and fn.locals[local]["n"] not in ("val", "residual", "e", "v", "iter", "__next")):
+                return self._apply_proj(("var", fn.locals[local]["n"], local), proj, bi, si, depth)
+        whole, partial, entry = self.reaching(local, bi, si)
         # exact / prefix partial defs that cover the requested projection
         terms = []
         cover = False
@@ -177,6 +182,24 @@ class Prov:
         if len(uniq) == 1:
             return uniq[0]
         return ("phi", frozenset(uniq))
+
+    def var_defs(self, local):
+        """Terms assigned to a cut variable, one per (feasible) definition site: [(block, line, term)]."""
+        out = []
+        for d in self.defs.get(local, []):
+            if d[2] is not None:
+                continue
+            if self.flow is not None and self.flow.state_in[d[0]] is None:
+                continue
+            node = d[3]
+            out.append((d[0], node.get("l"), self._site(d, 0)))
+        return out
+
+    def var_by_name(self, name):
+        for l in range(self.fn.argc + 1, len(self.fn.locals)):
+            if self.fn.locals[l].get("n") == name and len([d for d in self.defs.get(l, []) if d[2] is None]) > (0 if self.cut == "all" else 1):
+                return l
+        return None
 
     def _site(self, d, depth):
         key = (d[0], d[1])
@@ -367,17 +390,18 @@ def _contains_rec(t):
     return False
 
 
-def prov_of(fn, ctx=None):
+def prov_of(fn, ctx=None, cut=False):
     """Provenance engine of fn; with ctx (dict of bool params) the reaching definitions are
-    restricted to the edges feasible in that context."""
-    if ctx is None:
+    restricted to the edges feasible in that context; with cut=True re-assigned named
+    variables are kept as ('var', name, local) leaves (loop-carried state stays readable)."""
+    if ctx is None and not cut:
         if "prov" not in fn._cache:
             fn._cache["prov"] = Prov(fn)
         return fn._cache["prov"]
     from .preach import flow
-    key = ("prov", tuple(sorted((k, v) for k, v in ctx.items() if v is not None)))
+    key = ("prov", cut, tuple(sorted((k, v) for k, v in (ctx or {}).items() if v is not None)))
     if key not in fn._cache:
-        fn._cache[key] = Prov(fn, flow(fn, ctx))
+        fn._cache[key] = Prov(fn, flow(fn, ctx) if ctx is not None else None, cut=cut)
     return fn._cache[key]
 
 
@@ -396,6 +420,8 @@ def show(t, full=False):
     k = t[0]
     if k == "param":
         return t[1]
+    if k == "var":
+        return "$" + t[1]
     if k == "const":
         if t[2]:
             return t[2].split("<")[0].rsplit("::", 1)[-1] if not full else t[2]
@@ -477,7 +503,7 @@ def subterms(t):
                 yield from subterms(y)
 
 
-_KINDS = {"param", "const", "fn", "field", "index", "q", "payload", "call", "bin", "un", "cast",
+_KINDS = {"var", "param", "const", "fn", "field", "index", "q", "payload", "call", "bin", "un", "cast",
           "agg", "tuple", "array", "discr", "len", "phi", "variant", "trybranch", "closure",
           "repeat", "subslice", "unknown", "rec", "uninit", "partial", "setdiscr", "overflowflag"}
 
